@@ -401,6 +401,7 @@ def check_db(chk, db, tab, terms, jobs):
     jobs.append(("table", db, None))
     # ---- per written variant
     indel_keys = []
+    delins_keys = []
     for (p, op) in db.uniq:
         v = parse_op_py(op)
         kind = v[0] if not (v[0] == "sub" and len(v[1]) > 1) else "mnp"
@@ -475,6 +476,28 @@ def check_db(chk, db, tab, terms, jobs):
             chk.count(st + ":variants", "gallina-predicate-evaluated")
         if lv[0] in ("ins", "del"):
             indel_keys.append((key, p, op, cwin, G, d, case_data))
+        elif lv[0] == "delins":
+            delins_keys.append((key, p, op, cwin, G, d, case_data))
+    # ---- deletion-insertions: the variant the realigner is given (anchor base + alleles, sam.py:455-470) must denote the catalogued haplotype
+    if delins_keys:
+        with tempfile.TemporaryDirectory(dir=common.SCRATCH) as td:
+            try:
+                _, anch = indel_anchoring(g, [k for k, *_ in delins_keys], td, real=False)
+            except Exception:     # noqa  (the stand-in does not support the call: nothing observed)
+                anch = {}
+            for key, p, op, cwin, G, d, case_data in delins_keys:
+                va = anch.get(key, (None, []))[0]
+                if va is None:
+                    continue
+                chk.count(st + ":indel-anchoring", "delins-realign-variant-compared")
+                lv = parse_op_py(key[1])
+                c2, G2 = cwin - 4, g[cwin - 4:cwin + len(G) + 4]
+                want = apply_py(lv, key[0], c2, G2)
+                p1, r, a_ = va
+                j = p1 - 1 - c2
+                if not (j >= 0 and G2[j:j + len(r)] == r and G2[:j] + a_ + G2[j + len(r):] == want):
+                    chk.fail("insertion-gap", dict(d, loaded=list(key), what="variant handed to the realigner"), case_data,
+                             "anchor base + alleles that denote the catalogued deletion-insertion", {"variant": list(va)})
     # ---- insertion / deletion anchoring on the real Sample code
     if indel_keys:
         with tempfile.TemporaryDirectory(dir=common.SCRATCH) as td:
